@@ -41,6 +41,30 @@ LOCK_INTERNAL = {"sodium/core.c::locked", "sodium/core.c::_sodium_lock"}
 ALSO_PORTABLE = True
 
 
+def _ret_by_leave(p, lev, want):
+    """the return value as a function of sodium_crit_leave()'s result: `want` when the lock was
+    released, non-zero otherwise. The path may or may not have branched on that result (a
+    conditional expression leaves a select in the returned term), so both cases are decided
+    under the corresponding assumption."""
+    if p.ret is None:
+        return False
+    if not lev:
+        return p.ret_zeroness() == "NZ"
+    r = lev[0].res
+    lz = p.facts.zeroness(r)
+    ok = True
+    for z in ("Z", "NZ"):
+        if lz is not None and lz != z:
+            continue
+        f = p.facts.copy()
+        f.add(("icmp", "eq", r, C(0, 32)), z == "Z")
+        if z == "Z":
+            ok = ok and f.interval(p.ret) == (want, want)
+        else:
+            ok = ok and f.zeroness(p.ret) == "NZ"
+    return ok
+
+
 def run(ctx, chk):
     prog = ctx.prog()
     cg = prog.callgraph()
@@ -87,14 +111,12 @@ def run(ctx, chk):
             ok = set(names) == step_set and len(flag) == 1 and flag[0].val == C(1, 32) and flag[0].idx > max(e.idx for e in steps)
             chk.ob("R19.1", init, "first initialisation runs every step and sets initialized = 1 last", ok, loc=init.loc(p.end_iid),
                    detail="missing: %s" % sorted(step_set - set(names)), path=None if ok else p, key="R19.1 sodium_init order")
-            lz = p.facts.zeroness(lev[0].res) if lev else None
-            okr = (p.ret == C(0, 32)) if lz == "Z" else (p.ret_zeroness() == "NZ")
+            okr = _ret_by_leave(p, lev, 0)
             chk.ob("R19.1", init, "initialising thread returns 0 (or -1 if the lock cannot be released)", okr, loc=init.loc(p.end_iid),
                    path=None if okr else p, key="R19.1 sodium_init first-return")
         else:
             nagain += 1
-            lz = p.facts.zeroness(lev[0].res) if lev else None
-            okr = (p.ret == C(1, 32)) if lz == "Z" else (p.ret_zeroness() == "NZ")
+            okr = _ret_by_leave(p, lev, 1)
             chk.ob("R19.1", init, "already initialised => no initialisation work, returns 1", okr, loc=init.loc(p.end_iid),
                    path=None if okr else p, key="R19.1 sodium_init again-return")
     chk.floor("R19.1", "first-initialisation paths", nfirst, 1)
